@@ -31,6 +31,8 @@ func main() {
 		driverMain(os.Args[2:])
 	case "gen":
 		genMain(os.Args[2:])
+	case "cold":
+		coldMain(os.Args[2:])
 	default:
 		fmt.Fprintln(os.Stderr, "unknown mode", os.Args[1])
 		os.Exit(2)
@@ -162,6 +164,7 @@ func replayMain(args []string) {
 		die("usage: replay [-nsites n] [-racelog f] file")
 	}
 	setupProcess(*nsites, *racelog)
+	coldChild = true // a replay is a fresh process already
 	s, err := readScenario(fs.Arg(0))
 	if err != nil {
 		die("%v", err)
@@ -202,7 +205,7 @@ func minimiseMain(args []string) {
 	}
 	check := s.Check
 	var test func(c *Scenario) bool
-	if check == "race" {
+	if check == "race" || s.Phase == "cold" {
 		// the race detector reports a given pair of stacks once per process:
 		// every candidate is replayed in a fresh process
 		tmp := *out + ".cand"
